@@ -202,9 +202,20 @@ def scratch():
     return _scratch
 
 
+_base = {}
+
+
+def base(file):
+    """The file as it was at the commit the mutant list was made from (the list stays valid if /repo moves on)."""
+    if file not in _base:
+        head = json.load(open(os.path.join(OUT, "mutants.json")))["repo_head"]
+        _base[file] = subprocess.run(["git", "-C", REPO, "show", f"{head}:{file}"], capture_output=True, check=True).stdout
+    return _base[file]
+
+
 def apply(m, d):
     p = os.path.join(d, m["file"])
-    orig = open(os.path.join(REPO, m["file"]), "rb").read()
+    orig = base(m["file"])
     assert orig[m["a"]:m["b"]].decode() == m["old"], m
     open(p, "wb").write(orig[:m["a"]] + m["new"].encode() + orig[m["b"]:])
     return orig
